@@ -8,3 +8,5 @@ import FpVerif.Properties.C12
 #print axioms Fp.C12.inflow_add_panics_iff
 #print axioms Fp.C12.ledger_step
 #print axioms Fp.C12.no_leak
+#print axioms Fp.C12.tx_window_safe
+#print axioms Fp.C12.tx_blocked_only_by_window
